@@ -20,7 +20,9 @@ def _scratch_cwd():
     if _CWD is None:
         _CWD = tempfile.mkdtemp(prefix="verif_c17_")
         atexit.register(shutil.rmtree, _CWD, True)
-        os.chdir(_CWD)
+        apirec.EnvWatch.root = _CWD          # the whole scratch area is watched, the working directory is a sub-directory of it
+    os.makedirs(os.path.join(_CWD, "a"), exist_ok=True)
+    os.chdir(os.path.join(_CWD, "a"))
     return _CWD
 
 
@@ -52,6 +54,12 @@ def _case(job):
         ops.append(["fix", 2, m, vr, show, save])      # visible call FIRST on a fresh object, then the plain one
         ops.append(["fix", 2, m, vr, False, False])
     ops.append(["fix", 1, m, vr, False, False])
+    if vis and seed % 3 == 0:
+        # the working directory changes between constructing the pair and asking for the report: "the working directory" is
+        # the one at the time of the call
+        ops.append(["chdir", "b"])
+        ops.append(["fix", 1, m, vr, show, save])
+        ops.append(["chdir", "a"])
     ents = [[E(text), E(bg), large], [E("#777777"), E("#ffffff"), True], [E("bogus"), E("#fff")], [E(text), E(bg), large],
             [E(list(a)), E(list(b))], [E([a[0], a[1], a[2], 0.5]), E(bg)]]
     ops.append(["bulk", ents, m, vr, False])
@@ -95,6 +103,18 @@ def main():
     keys, cols = apirec.Interner(), apirec.Interner()
     traces = [apirec.to_events(raw, keys, cols) for raw, _ in res]
     traces.append([import_event()])
+    # a long history in one (fresh) process whose limit on open files is lowered to 96: 130 report-writing calls (show / save /
+    # both, single and bulk) - each must behave like the first (nothing a call acquires may be kept)
+    long_ops = [["rlimit", 96], ["new", 1, E("#777777"), E("#ffffff"), False], ["fix", 1, 1, False, False, False],
+                ["new", 2, E((120, 120, 125)), E("rgb(250, 250, 250)"), True], ["fix", 2, 2, True, False, False]]
+    for j in range(110 if t == "quick" else 400):
+        long_ops.append(["fix", 1 + j % 2, 1 + j % 2, bool(j % 2), j % 3 == 0, True])
+    for j in range(20 if t == "quick" else 80):
+        long_ops.append(["bulk", [[E("#777777"), E("#ffffff")], [E("#888888"), E("#000000"), True]], j % 3, False, True])
+    long_ops.append(["fix", 1, 1, False, False, False])
+    long_raw = apirec.run_fresh(long_ops, hashseed="0", observe_env=True)
+    traces.append(apirec.to_events(long_raw, keys, cols))
+    rep.extra["long_history_calls_under_lowered_fd_limit"] = len(long_ops) - 1
     agg = vlib.validate_traces("TrApi", traces, min_per_shard=30)
     rep.add_traces(agg, len(traces))
     rep.evaluations = sum(len(tr) for tr in traces)
@@ -112,7 +132,7 @@ def main():
         mine = [f for f in bad["fails"] if f.startswith("C17_")]
         if mine:
             tid = bad["tid"]
-            src = {"case": jobs[tid][0], "input": repr(res[tid][1])} if tid < len(jobs) else {"case": "import cm_colors in a fresh interpreter"}
+            src = {"case": jobs[tid][0], "input": repr(res[tid][1])} if tid < len(jobs) else {"case": "import cm_colors in a fresh interpreter" if tid == len(jobs) else "long history of report-writing calls in a fresh interpreter with RLIMIT_NOFILE = 96"}
             rep.violation("/".join(mine), dict(src, behaviour=traces[tid],
                           reproduce="run the operations of `behaviour` in an empty working directory; dout = bytes on stdout+stderr, newFiles/modFiles = directory diff"))
     return rep.finish()
